@@ -45,6 +45,7 @@ func c09Check(c *hist.Case, r *evid.Rec) []evid.Disc {
 	var ds []evid.Disc
 	const S = "c0"
 	ents := map[int]*c09Ent{}
+	willArmed, subQ := false, byte(0)
 	smallWindow := false
 	window := 0
 	for _, a := range c.Actions {
@@ -120,6 +121,36 @@ func c09Check(c *hist.Case, r *evid.Rec) []evid.Disc {
 					}
 				}
 			}
+		}
+		// (2b) the delayed will of client c2 (v5, QoS 1, delay 30 s) is a publish by the broker: it becomes due at the first
+		// will-housekeeping tick more than 33 s after c2's connection was dropped, and then creates the same obligation
+		if s.A.Kind == "drop" && s.A.Client == 2 && !s.Skipped {
+			willArmed = true
+		}
+		if s.A.Kind == "tick" && s.A.Tick == "wills" && willArmed && s.A.Offset >= 40 {
+			willArmed = false
+			for tag, ti := range run.Tags {
+				if !ti.Will || ti.CID != "c2" {
+					continue
+				}
+				if q := minB(ti.QoS, subQ); q > 0 {
+					ents[tag] = &c09Ent{tag: tag, qos: q, firstPeer: -1, queuedStep: s.I}
+					r.Label("delayed-will-queued")
+					if window > 0 && len(before) >= window {
+						ents[tag].deferred = true
+					}
+				}
+			}
+		}
+		if s.A.Kind == "subscribe" && s.A.Client == 0 && !s.Skipped {
+			for _, o := range s.Obs {
+				if o.Peer == s.Peer && o.P.Type == refmqtt.SUBACK && len(o.P.ReasonCodes) > 0 && o.P.ReasonCodes[0] < 0x80 {
+					subQ = o.P.ReasonCodes[0]
+				}
+			}
+		}
+		if reset {
+			subQ = 0
 		}
 		// (3) what the subscriber's connections received in this step
 		for _, o := range s.Obs {
@@ -261,14 +292,29 @@ func c09Gen(rt *rapid.T) *hist.Case {
 			return hist.Action{Kind: "publish", Client: 1, Topic: "t/a", QoS: 0}
 		}
 	})
-	c.Actions = append(c.Actions, rapid.SliceOfN(action, 4, 35).Draw(rt, "actions")...)
+	acts := rapid.SliceOfN(action, 4, 35).Draw(rt, "actions")
+	if ver == 5 || rapid.Bool().Draw(rt, "with-will") {
+		if rapid.IntRange(0, 2).Draw(rt, "will-class") == 0 {
+			// a third client leaves a delayed QoS 1 will behind: it is published by the housekeeping (virtual time) at a
+			// generated point of the history, possibly while the subscriber is offline, and the in-flight housekeeping
+			// runs afterwards (nothing here carries a message expiry, the server maximum is a day: nothing may go)
+			d, e := uint32(30), uint32(100)
+			c.Actions = append(c.Actions,
+				hist.Action{Kind: "connect", Client: 2, Version: 5, Clean: true, AutoAck: true, Expiry: &e, Will: &hist.WillSpec{Topic: "t/w", QoS: 1, Delay: &d}},
+				hist.Action{Kind: "drop", Client: 2})
+			at := rapid.IntRange(0, len(acts)).Draw(rt, "will-at")
+			ticks := []hist.Action{{Kind: "tick", Tick: "wills", Offset: 40}, {Kind: "tick", Tick: "inflight", Offset: pick(rt, "inflight-tick", []int64{50, 1000})}}
+			acts = append(acts[:at], append(ticks, acts[at:]...)...)
+		}
+	}
+	c.Actions = append(c.Actions, acts...)
 	// closing phase: the subscriber reconnects once more, which must bring everything still outstanding
 	c.Actions = append(c.Actions, hist.Action{Kind: "drop", Client: 0}, sub)
 	return c
 }
 
 func TestC09(t *testing.T) {
-	r := evid.New("C09", "rapid: a subscriber with a persistent session (v3.1/v3.1.1 clean session 0, v5 expiry>0; receive maximum absent or 1-2) on a QoS 1/2 subscription acknowledges by hand in generated order and stage (PUBACK; PUBREC without PUBCOMP; nothing), is dropped, closed, disconnected, taken over and reconnects with clean start 0 or 1, while a publisher sends QoS 1/2 messages also when the subscriber is offline; oracle: a model map tag -> {packet id, stage} built from the wire; at every CONNACK with session present each outstanding entry must be resent in that step (PUBLISH with the same identifier, DUP if sent before on another connection; PUBREL instead once the client sent PUBREC), nothing acknowledged ever reappears, nothing is resent after clean start; non-trivial = a resumed connect with >=1 outstanding entry; distinct by (history, step)")
+	r := evid.New("C09", "rapid: a subscriber with a persistent session (v3.1/v3.1.1 clean session 0, v5 expiry>0; receive maximum absent or 1-2) on a QoS 1/2 subscription acknowledges by hand in generated order and stage (PUBACK; PUBREC without PUBCOMP; nothing), is dropped, closed, disconnected, taken over and reconnects with clean start 0 or 1, while a publisher sends QoS 1/2 messages also when the subscriber is offline; in some histories a third client's delayed QoS 1 will is published by the will housekeeping (virtual time) and the in-flight housekeeping runs afterwards; oracle: a model map tag -> {packet id, stage} built from the wire; at every CONNACK with session present each outstanding entry must be resent in that step (PUBLISH with the same identifier, DUP if sent before on another connection; PUBREL instead once the client sent PUBREC), nothing acknowledged ever reappears, nothing is resent after clean start; non-trivial = a resumed connect with >=1 outstanding entry; distinct by (history, step)")
 	defer r.Finish(t)
 	if evid.ReplayMode() {
 		evid.Replay(t, r, replayPath(), c09Check)
